@@ -20,6 +20,7 @@ CONSTANTS
   SysDomSet = {TRUE}
   NoRedSet = {FALSE}
   NoObfSets = {{}}
+  WidthSet = {FALSE}
   FamSet = {"plain"}
   AllowBlank = FALSE
   Runs = 1
